@@ -25,15 +25,16 @@ def pair(case):
   import jax.numpy as jnp
   kind, lr, hp = case['pair'], case['lr'], BATCHING[case['batching']]
   co = case.get('copt', 'sgd')  # client optimizer: a stateful one separates optimizer states that SGD cannot
+  bk = {'backend': case['backend']} if case.get('backend') else {}
   plain = lambda alg: (lambda st, cohort: alg.apply(st, cohort)[0])
   P = lambda st: st.params
   if kind == 'fedprox0':
-    a, ia = systems.build('fed_prox', mu=0.0, copt=co, sopt='mom', lr_c=lr, lr_s=0.5, loss='rng', hp=hp)
-    b, ib = systems.build('fed_avg', copt=co, sopt='mom', lr_c=lr, lr_s=0.5, loss='rng', hp=hp)
+    a, ia = systems.build('fed_prox', **bk, mu=0.0, copt=co, sopt='mom', lr_c=lr, lr_s=0.5, loss='rng', hp=hp)
+    b, ib = systems.build('fed_avg', **bk, copt=co, sopt='mom', lr_c=lr, lr_s=0.5, loss='rng', hp=hp)
     return plain(a), ia, plain(b), ib, P, P
   if kind.startswith('fedprox_mu'):
     mu = float(kind.split('mu')[1])
-    a, ia = systems.build('fed_prox', mu=mu, copt='sgd', sopt='mom', lr_c=lr, lr_s=0.5, loss='rng', hp=hp)
+    a, ia = systems.build('fed_prox', **bk, mu=mu, copt='sgd', sopt='mom', lr_c=lr, lr_s=0.5, loss='rng', hp=hp)
     from fedjax.algorithms import fed_avg
     base = algos.make_loss('rng')
     c_opt, _ = algos.make_opt('sgd', lr)
@@ -51,21 +52,21 @@ def pair(case):
     ib = fed_avg.ServerState(algos.jparams(), s_opt.init(algos.jparams()))
     return plain(a), ia, step_b, ib, P, P
   if kind == 'hyp1':
-    a, ia = systems.build('hyp_cluster', clusters=1, copt=co, sopt='mom', lr_c=lr, lr_s=0.5, loss='plain', hp=hp)
-    b, ib = systems.build('fed_avg', copt=co, sopt='mom', lr_c=lr, lr_s=0.5, loss='plain', hp=hp)
+    a, ia = systems.build('hyp_cluster', **bk, clusters=1, copt=co, sopt='mom', lr_c=lr, lr_s=0.5, loss='plain', hp=hp)
+    b, ib = systems.build('fed_avg', **bk, copt=co, sopt='mom', lr_c=lr, lr_s=0.5, loss='plain', hp=hp)
     return plain(a), ia, plain(b), ib, (lambda st: st.cluster_params[0]), P
   if kind == 'mimelite_sgd':
-    a, ia = systems.build('mime_lite', base='sgd', lr=lr, server_lr=1.0, loss='rng', hp=hp)
-    b, ib = systems.build('fed_avg', copt='sgd', sopt='sgd', lr_c=lr, lr_s=1.0, loss='rng', hp=hp)
+    a, ia = systems.build('mime_lite', **bk, base='sgd', lr=lr, server_lr=1.0, loss='rng', hp=hp)
+    b, ib = systems.build('fed_avg', **bk, copt='sgd', sopt='sgd', lr_c=lr, lr_s=1.0, loss='rng', hp=hp)
     return plain(a), ia, plain(b), ib, P, P
   if kind == 'apfl_global':
-    a, ia = systems.build('apfl', coef=0.5, copt=co, sopt='mom', lr_c=lr, lr_s=0.5, loss='plain', hp=hp)
-    b, ib = systems.build('fed_avg', copt=co, sopt='mom', lr_c=lr, lr_s=0.5, loss='plain', hp=hp)
+    a, ia = systems.build('apfl', **bk, coef=0.5, copt=co, sopt='mom', lr_c=lr, lr_s=0.5, loss='plain', hp=hp)
+    b, ib = systems.build('fed_avg', **bk, copt=co, sopt='mom', lr_c=lr, lr_s=0.5, loss='plain', hp=hp)
     return plain(a), ia, plain(b), ib, P, P
   if kind == 'mime_one_step':
     gamma = 0.5
     reg = case.get('reg')
-    a, ia = systems.build('mime', base='sgd', lr=lr, server_lr=gamma, loss='plain', hp=(2, None, 1, 0), ghp=(2, 2), reg=reg)
+    a, ia = systems.build('mime', **bk, base='sgd', lr=lr, server_lr=gamma, loss='plain', hp=(2, None, 1, 0), ghp=(2, 2), reg=reg)
 
     def step_ref(st, cohort):
       p = algos.nparams({k: np.asarray(v) for k, v in st.items()})
@@ -99,6 +100,8 @@ def lockstep(case):
         continue
       if case['pair'].startswith('fedprox_mu') and len(h2) > case.get('mu_depth', 2):
         continue
+      if case['pair'].startswith('fedprox_mu') and len(h2) == 2 and case.get('second_level') and name not in case['second_level']:
+        continue
       nc = dict(case, history=h2)
       cohort = [pop[i] for i in idxs]
       na, nb = step_a(sa, cohort), step_b(sb, cohort)
@@ -121,7 +124,7 @@ def lockstep(case):
   rec([], ia, ib)
   return {'evals': stats['transitions'], 'states': stats['states'], 'transitions': stats['transitions'],
           'traces': stats['transitions'], 'outcomes': sorted(outs), 'nontrivial': True, 'violations': viols,
-          'keys': [[case['pair'], case.get('copt', 'sgd'), case['lr'], case['batching'], i] for i in range(stats['transitions'])],
+          'keys': [[case['pair'], case.get('copt', 'sgd'), case.get('backend', 'jit'), case['lr'], case['batching'], i] for i in range(stats['transitions'])],
           'sample': {'pair': case['pair'], 'lr': case['lr'], 'batching': case['batching'],
                      'transitions': stats['transitions'], 'distinct_parameter_vectors': len(outs)}}
 
@@ -132,7 +135,7 @@ TIMEOUTS = {'lockstep': 3000}
 
 def plan(ctx):
   th = ctx.tier == 'thorough'
-  depth = 3 if th else 2
+  depth = 4 if th else 2
   ctx.rule = ('pairs {FedProx(0)=FedAvg, FedProx(mu in {0.5,2})=FedAvg on the loss + proximal penalty, HypCluster(1)=FedAvg, '
               'MimeLite(SGD, server lr 1)=FedAvg(SGD,SGD(1)), APFL global=FedAvg, Mime(SGD, 1 step)=full-batch gradient step} x '
               'learning rate {1/8,1/2} x batching {(2,1 epoch),(3,2 epochs),(1,num_steps=1)} x every cohort history up to depth '
@@ -153,8 +156,13 @@ def plan(ctx):
         cs.append({'pair': p, 'lr': lr, 'batching': b, 'depth': depth, 'seed': ctx.seed, 'copt': co})
   for mu in ('0.5', '2'):
     for lr, b in ((0.125, 'b2e1'), (0.5, 'b3e2')) if th else ((0.125, 'b2e1'),):
-      cs.append({'pair': 'fedprox_mu' + mu, 'lr': lr, 'batching': b, 'depth': 2, 'mu_depth': 2 if th else 1,
-                 'seed': ctx.seed})
+      cs.append({'pair': 'fedprox_mu' + mu, 'lr': lr, 'batching': b, 'depth': 2, 'mu_depth': 2,
+                 'second_level': None if th else ['A', 'BA'], 'seed': ctx.seed})
+  # the same pairs on the pmap backend (clients are re-ordered by number of batches inside each block)
+  for p in ('fedprox0', 'hyp1', 'mimelite_sgd', 'apfl_global'):
+    for be in (('pmap2', 'pmap3') if th else ('pmap2',)):
+      for b in (('b1s1', 'b3e2') if th else ('b1s1',)):
+        cs.append({'pair': p, 'lr': 0.125, 'batching': b, 'depth': 2, 'seed': ctx.seed, 'backend': be})
   for lr in (0.125, 0.5):
     for reg in (None, 0.25):
       cs.append({'pair': 'mime_one_step', 'lr': lr, 'batching': 'b1s1', 'depth': depth, 'reg': reg, 'seed': ctx.seed})
